@@ -283,6 +283,7 @@ static Json gen_oneshot(Rng &r0, const std::string &focus, int tier)
         bool chain = focus == "C14" ? r.chance(4, 5) : r.chance(1, 8);
         uint64_t maxlen = r.chance(1, 8) ? 200000 : r.chance(1, 3) ? 70000 : 3000;
         Json data = gen_data_spec(r, maxlen, focus == "C10" ? (r.chance(2, 3) ? 1 : 0) : 0);
+        maybe_adler_worst_case(r, focus, data);
         p.set("data", data).set("level", level).set("wrap", wrap).set("hb", r.pick(hbs));
         Json lb = Json::arr();
         lb.push((int) (r.chance(1, 2) ? 0 : r.below(5))).push(r.chance(1, 2) ? 0 : (int) r.below(300)).push((int) r.below(4));
